@@ -11,6 +11,7 @@ import (
 	"go/types"
 	"sort"
 	"strings"
+	"time"
 
 	"golang.org/x/tools/go/ssa"
 )
@@ -783,5 +784,92 @@ func ruleORD8(p *Program) *RuleResult {
 		}
 	}
 	r.floor("component_reads", 4)
+	return r
+}
+
+// ORD9: the component vectors that Date/DateTime/Time comparison is built on
+// order values like the calendar does: getComponents is evaluated (package time
+// folded) on a pool of values and, per component position, the order of the
+// component equals the order of the corresponding civil field (seconds and
+// fraction form one component).
+func ruleORD9(p *Program) *RuleResult {
+	r := newResult("ORD9")
+	type civ struct{ y, mo, d, h, mi, s, ns int }
+	pool := []civ{
+		{2020, 1, 31, 10, 0, 1, 500000000}, {2020, 1, 31, 10, 0, 2, 0}, {2020, 1, 31, 10, 0, 1, 1000000}, {2020, 1, 31, 10, 0, 1, 0},
+		{2020, 2, 29, 23, 59, 59, 999000000}, {2019, 12, 31, 0, 0, 0, 0}, {2020, 1, 31, 9, 59, 59, 999000000}, {1, 1, 1, 0, 0, 0, 1000000}, {9999, 12, 31, 23, 59, 58, 2000000},
+	}
+	for _, t := range []struct {
+		name string
+		ref  func(c civ) []int64
+	}{
+		{"Date", func(c civ) []int64 { return []int64{int64(c.y), int64(c.mo), int64(c.d)} }},
+		{"DateTime", func(c civ) []int64 {
+			return []int64{int64(c.y), int64(c.mo), int64(c.d), int64(c.h), int64(c.mi), int64(c.s)*1000000000 + int64(c.ns)}
+		}},
+		{"Time", func(c civ) []int64 { return []int64{int64(c.h), int64(c.mi), int64(c.s)*1000000000 + int64(c.ns)} }},
+	} {
+		fn, err := p.Method("fhirpath/system", t.name, "getComponents")
+		if err != nil {
+			return r.anchorFail(err)
+		}
+		var vecs [][]int64
+		okEval := true
+		for _, c := range pool {
+			r.count("evaluations", 1)
+			tm := time.Date(c.y, time.Month(c.mo), c.d, c.h, c.mi, c.s, c.ns, time.UTC)
+			if t.name == "Time" {
+				tm = time.Date(0, 1, 1, c.h, c.mi, c.s, c.ns, time.UTC)
+			}
+			an := newAnalyzer()
+			an.maxBlocks = 100
+			res := an.analyze(fn, []aval{{k: kStruct, elems: []aval{cTime(tm), top}}})
+			j := res.joinedReturn()
+			var vec []int64
+			if j.k == kSlice && j.elems != nil {
+				for _, e := range j.elems {
+					if v, ok := constInt(e); ok {
+						vec = append(vec, v)
+					}
+				}
+			}
+			if len(vec) != len(t.ref(c)) {
+				okEval = false
+				r.undecided(t.name+".getComponents|eval", fmt.Sprintf("%s.getComponents could not be evaluated: %s", t.name, j.String()), p.pos(fn.Pos()), "not foldable")
+				break
+			}
+			vecs = append(vecs, vec)
+		}
+		if !okEval {
+			continue
+		}
+		sign := func(x int64) int {
+			switch {
+			case x < 0:
+				return -1
+			case x > 0:
+				return 1
+			}
+			return 0
+		}
+		for i := range vecs[0] {
+			bad := ""
+			for a := range pool {
+				for b := range pool {
+					ra, rb := t.ref(pool[a])[i], t.ref(pool[b])[i]
+					if sign(vecs[a][i]-vecs[b][i]) != sign(ra-rb) && bad == "" {
+						bad = fmt.Sprintf("component %d of %v is %d and of %v is %d, the civil fields order as %d vs %d", i, pool[a], vecs[a][i], pool[b], vecs[b][i], ra, rb)
+					}
+				}
+			}
+			key := fmt.Sprintf("%s.getComponents|component %d", t.name, i)
+			if bad == "" {
+				r.ok(key, fmt.Sprintf("component %d of %s orders the pool like the civil field does", i, t.name), p.pos(fn.Pos()), "constant propagation with package time folded; order isomorphism on all pairs of the pool", true)
+			} else {
+				r.bad(key, bad, p.pos(fn.Pos()), "comparison across precisions uses these components: a component that is not monotone in its civil field flips <, > and = for some values")
+			}
+		}
+	}
+	r.floor("evaluations", 27)
 	return r
 }
